@@ -77,7 +77,8 @@ def jobs(tier):
         for i in range(0, len(sp), 150):
             sh.append(('omen_list', 'utf-8', sp[i:i + 150]))
         sh.append(('omen', 'utf-8', 0x20, 0x300))
-    for enc in ('latin-1', 'cp1251'):
+    # (cp437 / mac_roman: code pages with capital letters whose small letter they do not have)
+    for enc in ('latin-1', 'cp1251', 'cp437', 'mac_roman'):
         sh.append(('omen8', enc))
     for enc in ('utf-8', 'latin-1'):
         sh.append(('hexjunk', enc))
@@ -223,6 +224,11 @@ def compare_training(wd, lines, enc, acc, case, raw_bytes=None, keep_existing=Fa
     ok, base, out, pi, cap = O.train_capture(wd, lines, rule='c7', encoding=enc, ngram=2, alphabet_size=100000, coverage=0.5, raw_bytes=raw_bytes, keep_existing=keep_existing,
                                              save_sensitive=save_sensitive)
     if ok is not True or 'trainer' not in cap:
+        if "codec can't encode" in out and 'something went wrong saving' in out:
+            # the writer refused a value that the ruleset's encoding cannot hold (the small letter of a capital in a code page that lacks it): no ruleset
+            # is declared saved, so there is nothing for two readers to disagree about
+            acc.count('trainings_refused_by_the_writer_unencodable_value')
+            return []
         return [('train', 'training did not complete: %s' % out[-160:])]
     tr = cap['trainer']
     # ---- OMEN loaders
